@@ -125,10 +125,30 @@ def check_canonical(G, M, col, cls, removal, h, check='C03.canonical_timeline'):
                     col.violation(check, cls, removal, h, 'interactions() exposes for %r: %s' % (k, p))
 
 
+def _d23_probe(col, cls):
+    """calls with a vanishing time that does not follow the start (e <= t): the added span t..e-1 is empty, so nothing may change
+    except the endpoints becoming nodes; today an inverted interval is stored (finding D23)"""
+    for (t, e) in ((5, 5), (5, 3)):
+        G = new_graph(cls, True)
+        h = [('add', 1, 2, t, e)]
+        try:
+            G.add_interaction(1, 2, t, e)
+        except Exception as ex:
+            col.violation('C03.canonical_timeline', cls, True, h, 'add_interaction(1,2,%d,%d) raised %r' % (t, e, ex), d23=True)
+            continue
+        tl = timelines(G).get((1, 2))
+        bad = tl is not None and any(iv[0] > iv[1] for iv in tl)
+        col.seen(('d23', cls, t, e), True)
+        if bad or any(G.has_interaction(1, 2, q) for q in range(0, 9)):
+            col.violation('C03.canonical_timeline', cls, True, h, 'empty span t=%d, e=%d stored as %r' % (t, e, tl), d23=True)
+
+
 def c03_canonical(tier, seed):
     col = Collector('same history space as C01 (accepted histories only); the timeline of every pair read from the representation and from '
                     'interactions()/out_interactions() must be sorted, disjoint, non-adjacent, start<=end, with union = presence set; '
                     'non-trivial = distinct state with at least one interaction')
+    for cls in ('DynGraph', 'DynDiGraph'):
+        _d23_probe(col, cls)
     for cls, removal, h in histories(tier, seed):
         G, M, outs = run_history(cls, removal, h)
         if any(o[0] != o[1] for o in outs):
